@@ -26,7 +26,8 @@ def packet(r):
     opts = wiregen.option_area(r) if r.random() < 0.5 else b"\x02\x04\x05\xb4\x04\x02\x08\x0a\x00\x00\x30\x39\x00\x00\x00\x00\x01\x03\x03\x07"
     payload = r.choice([b"", b"", b"hello", b"GET / HTTP/1.1\r\n\r\n"])
     tcp = wiregen.tcp_header(r, flags=flags, opts=opts[:40], payload=payload, res=0)
-    raw = wiregen.ipv4(r, tcp, frag=r.choice([0, 0, 0, 0, 5])) if ver == "4" else wiregen.ipv6(r, tcp)
+    trailer = r.choice([b"", b"", b"\x00" * 6, b"\x00\x00\xde\xad\xbe\xef", b"\x00" * 18])     # frame padding / FCS beyond the IP length
+    raw = wiregen.ipv4(r, tcp, frag=r.choice([0, 0, 0, 0, 5]), trailer=trailer) if ver == "4" else wiregen.ipv6(r, tcp, trailer=trailer)
     return f"{r.choice('dduuce')}.{ver}.{raw.hex()}"
 
 
